@@ -198,3 +198,87 @@ Lemma witness_twice : inv_ok (bs "ACGU"%bs) = true /\ inv_ok (bs "UUU"%bs) = fal
   Bstr (complement (bs "aXu-R"%bs)) = "aXu-Y"%bs /\ Bstr (complement (t2u (bs "AAA"%bs))) = "TTT"%bs /\
   Bstr (t2u (complement (bs "AAA"%bs))) = "UUU"%bs /\ Bstr (construct (bs "acgu-n"%bs)) = "ACGU-N"%bs.
 Proof. vm_compute. repeat split; reflexivity. Qed.
+
+(* ---------------- the derivation is sound for ANY code table (unbounded) ---------------- *)
+Lemma set_eqb_iff a b : set_eqb a b = true <-> (forall x, In x a <-> In x b).
+Proof.
+  unfold set_eqb. rewrite andb_true_iff, !forallb_forall. split.
+  - intros [H1 H2] x. split; intros H; apply has_In; auto.
+  - intros H. split; intros x Hx; apply has_In; apply H; exact Hx.
+Qed.
+Lemma set_eqb_refl a : set_eqb a a = true.
+Proof. apply set_eqb_iff. tauto. Qed.
+
+Definition inv_good (codes : list (byte * list byte)) (t : list (list byte * byte)) : Prop :=
+  forall a b, In (a, b) t -> exists v, In (b, v) codes /\ set_eqb a v = true.
+
+Lemma inv_insert_good codes ks k t : In (k, ks) codes -> inv_good codes t -> inv_good codes (inv_insert ks k t).
+Proof.
+  intros Hk. induction t as [|[a b] r IH]; intros G.
+  - intros a b [E|[]]. inversion E; subst a b. exists ks. split; [exact Hk|apply set_eqb_refl].
+  - cbn [inv_insert]. destruct (set_eqb a ks) eqn:E.
+    + intros a' b' [E'|Hin].
+      * inversion E'; subst a' b'. exists ks. split; [exact Hk|exact E].
+      * apply G. right. exact Hin.
+    + intros a' b' [E'|Hin].
+      * inversion E'; subst a' b'. apply G. left. reflexivity.
+      * apply IH; [|exact Hin]. intros x y Hxy. apply G. right. exact Hxy.
+Qed.
+
+Lemma derive_inv_good_gen codes l t : (forall kv, In kv l -> In kv codes) -> inv_good codes t ->
+  inv_good codes (fold_left (fun t kv => inv_insert (snd kv) (fst kv) t) l t).
+Proof.
+  revert t. induction l as [|[k v] l IH]; intros t Hsub G; [exact G|].
+  cbn [fold_left fst snd]. apply IH.
+  - intros kv H. apply Hsub. right. exact H.
+  - apply inv_insert_good; [apply (Hsub (k, v)); left; reflexivity|exact G].
+Qed.
+Lemma derive_inv_good codes : inv_good codes (derive_inv codes).
+Proof. apply derive_inv_good_gen; [auto|]. intros a b []. Qed.
+
+Lemma lookupS_in ks t d : lookupS ks t = Some d -> exists a, In (a, d) t /\ set_eqb a ks = true.
+Proof.
+  induction t as [|[a b] r IH]; cbn [lookupS]; [discriminate|].
+  destruct (set_eqb a ks) eqn:E.
+  - intros H. inversion H; subst. exists a. split; [left; reflexivity|exact E].
+  - intros H. destruct (IH H) as (a' & Hin & Ea). exists a'. split; [right; exact Hin|exact Ea].
+Qed.
+
+Lemma mapM_in {A B} (f : A -> option B) l r x : mapM f l = Some r -> In x l -> exists y, f x = Some y /\ In y r.
+Proof.
+  revert r. induction l as [|a l IH]; intros r H Hx; [destruct Hx|].
+  cbn [mapM] in H. destruct (f a) as [y|] eqn:Fa; [|discriminate]. destruct (mapM f l) as [ys|] eqn:M; [|discriminate].
+  inversion H; subst. destruct Hx as [E|Hx].
+  - subst. exists y. split; [exact Fa|left; reflexivity].
+  - destruct (IH ys eq_refl Hx) as (y' & Fy & Hy). exists y'. split; [exact Fy|right; exact Hy].
+Qed.
+Lemma mapM_keys {A B C} (f : A -> option B) (ka : A -> C) (kb : B -> C) l r :
+  (forall x y, f x = Some y -> kb y = ka x) -> mapM f l = Some r -> map kb r = map ka l.
+Proof.
+  intros Hk. revert r. induction l as [|a l IH]; intros r H; cbn [mapM] in H; [inversion H; reflexivity|].
+  destruct (f a) as [y|] eqn:Fa; [|discriminate]. destruct (mapM f l) as [ys|] eqn:M; [|discriminate].
+  inversion H; subst. cbn [map]. rewrite (Hk a y Fa), (IH ys eq_refl). reflexivity.
+Qed.
+
+(* whatever CODES and COMPLEMENT are: if the derivation succeeds, the derived complement of a code c is a code of the table whose
+   base set is the image of c's bases under COMPLEMENT; the derived table has the keys of CODES in the same order *)
+Lemma derivation_sound codes compl d : derive_all codes compl = Some d ->
+  map fst d = map fst codes /\
+  forall c nts, In (c, nts) codes ->
+    exists c' nts' img, In (c, c') d /\ In (c', nts') codes /\
+      mapM (fun nt => lookupB nt compl) nts = Some img /\ (forall x, In x nts' <-> In x img).
+Proof.
+  intros H. unfold derive_all in H. split.
+  - apply (mapM_keys _ fst fst _ _) with (2 := H). intros x y Hxy. unfold derive_entry in Hxy.
+    destruct (mapM _ (snd x)); [|discriminate]. destruct (lookupS _ _); [|discriminate]. inversion Hxy. reflexivity.
+  - intros c nts Hin. destruct (mapM_in _ _ _ _ H Hin) as (y & Fy & Hy). unfold derive_entry in Fy. cbn [fst snd] in Fy.
+    destruct (mapM (fun nt => lookupB nt compl) nts) as [img|] eqn:M; [|discriminate].
+    destruct (lookupS img (derive_inv codes)) as [c'|] eqn:L; [|discriminate]. inversion Fy; subst y.
+    destruct (lookupS_in _ _ _ L) as (a & Ha & Ea). destruct (derive_inv_good codes a c' Ha) as (v & Hv & Eav).
+    exists c', v, img. split; [exact Hy|]. split; [exact Hv|]. split; [reflexivity|].
+    intros x. rewrite set_eqb_iff in Ea, Eav. rewrite <- Eav. apply Ea.
+Qed.
+
+Lemma witness_derive : exists d, derive_all [("A"%byte, bs "A"%bs); ("T"%byte, bs "T"%bs); ("W"%byte, bs "AT"%bs); ("X"%byte, bs "TA"%bs)]
+    [("A"%byte, "T"%byte); ("T"%byte, "A"%byte)] = Some d /\ lookupB "W"%byte d = Some "X"%byte.
+Proof. eexists. split; vm_compute; reflexivity. Qed.
